@@ -1195,12 +1195,6 @@ func (n *network) startAcceptor(a gen.AcceptorOptions) (*acceptor, error) {
 }
 
 func (n *network) accept(a *acceptor) {
-	hopts := gen.HandshakeOptions{
-		Cookie:         a.cookie,
-		Flags:          a.flags,
-		MaxMessageSize: a.max_message_size,
-		CertManager:    a.cert_manager,
-	}
 	for {
 		c, err := a.l.Accept()
 		if err != nil {
@@ -1215,6 +1209,14 @@ func (n *network) accept(a *acceptor) {
 			n.node.Log().Trace("accepted new TCP-connection from %s", c.RemoteAddr().String())
 		}
 
+		// take the current values: gen.Acceptor allows changing the cookie,
+		// the flags and the message size limit of a running acceptor
+		hopts := gen.HandshakeOptions{
+			Cookie:         a.cookie,
+			Flags:          a.flags,
+			MaxMessageSize: a.max_message_size,
+			CertManager:    a.cert_manager,
+		}
 		if hopts.Cookie == "" {
 			hopts.Cookie = n.cookie
 		}
